@@ -86,6 +86,7 @@ func (b *recBatch) Put(k, v []byte) error {
 	b.size += len(v)
 	return nil
 }
+func (b *recBatch) Delete(k []byte) error { panic("not supported") }
 func (b *recBatch) ValueSize() int { return b.size }
 func (b *recBatch) Reset()         { b.kvs, b.size = nil, 0 }
 func (b *recBatch) Write() error {
@@ -249,6 +250,23 @@ func mutate(s *account.AccountDB, u *universe, rng *rand.Rand, n int, sharing bo
 		case r < 94:
 			s.Suicide(a)
 			kinds["Suicide"]++
+		case r < 97:
+			// a failed inner call in the middle of the block: a slot written earlier in the block is
+			// written again (with other slots, a balance, the nonce) inside a snapshot that is reverted
+			k := u.keys[rng.Intn(len(u.keys))]
+			s.SetData(a, k, u.vals[rng.Intn(len(u.vals))])
+			s.AddBalance(a, big.NewInt(int64(1+rng.Intn(50))))
+			id := s.Snapshot()
+			var v2 []byte
+			if rng.Intn(4) != 0 {
+				v2 = u.vals[rng.Intn(len(u.vals))]
+			}
+			s.SetData(a, k, v2)
+			s.SetData(a, u.keys[rng.Intn(len(u.keys))], u.vals[rng.Intn(len(u.vals))])
+			s.AddBalance(a, big.NewInt(int64(1+rng.Intn(50))))
+			s.SetNonce(a, uint64(rng.Intn(50)))
+			s.RevertToSnapshot(id)
+			kinds["RevertedScope"]++
 		default:
 			s.CreateAccount(a)
 			kinds["CreateAccount"]++
